@@ -68,6 +68,33 @@ PairOut(a, b, size) ==
   LET ca == Chop(Flat(a), size)  cb == Chop(Flat(b), size)
   IN  [k \in 1..Len(ca) |-> [o |-> k - 1, items |-> ca[k], mates |-> cb[k]]]
 
+(* IFragments(minsize, length, overlap): a record longer than minsize is cut into windows of `length`    *)
+(* starting every step = length - overlap bases; the window that leaves fewer than `step` bases behind  *)
+(* is extended to the end.  A fragment is <<record, from, to>> (0-based from, exclusive to).            *)
+RECURSIVE FragsFrom(_, _, _, _, _)
+FragsFrom(r, L, i, length, step) ==
+  IF i >= L THEN <<>>
+  ELSE LET e0 == Min(i + length, L)
+           fusion == (L - e0) < step
+           e == IF fusion THEN L ELSE e0
+       IN <<<<r, i, e>>>> \o (IF fusion THEN <<>> ELSE FragsFrom(r, L, i + step, length, step))
+FragsOf(r, L, minsize, length, overlap) ==
+  IF L <= minsize THEN <<<<r, 0, L>>>> ELSE FragsFrom(r, L, 0, length, length - overlap)
+RECURSIVE AllFrags(_, _, _, _, _)
+AllFrags(recs, lens, minsize, length, overlap) ==
+  IF recs = <<>> THEN <<>>
+  ELSE FragsOf(Head(recs), lens[Head(recs)], minsize, length, overlap) \o AllFrags(Tail(recs), lens, minsize, length, overlap)
+FragmentsOut(inp, lens, minsize, length, overlap, size) ==
+  Number(Chop(AllFrags(Flat(inp), lens, minsize, length, overlap), size))
+(* every base of every record is covered, fragments of a record are in order and overlap by `overlap` *)
+FragsCover(fr, L) == /\ fr[1][2] = 0 /\ fr[Len(fr)][3] = L
+                     /\ \A k \in 1..(Len(fr) - 1) : fr[k + 1][2] < fr[k][3] \/ fr[k + 1][2] = fr[k][3]
+
+(* IMergeSequenceBatch(batchsize): every (non empty) input batch becomes ONE record whose count is the  *)
+(* number of records merged; merged records are grouped by `batchsize` in arrival order                 *)
+MergeOut(inp, arrival, batchsize) ==
+  Number(Chop([k \in 1..Len(arrival) |-> Len(inp[arrival[k] + 1])], batchsize))
+
 ---------------------------------------------------------------------------
 (* contracts every output stream must satisfy (checked by TLC on the closed forms, and by *)
 (* the trace specification on streams observed from the real nondeterministic combinators) *)
